@@ -482,6 +482,30 @@ theorem grafts_preserve_order (steps : List (Nat × G)) : ∀ {g : G} {s : Spec}
       rw [← eE]
       exact hord1 u w hu hun.1 hw hwn.1
 
+/-- **when `flatten(recurse=True)` returns, only plain nodes are left** (partial correctness of the loop over the nested
+levels: it can only stop on a graph without a nested node; that it does stop is not proved — see the header — and is
+what A29 was about) -/
+theorem flatten_all_plain (store : Nat → Option G) :
+    ∀ (fuel : Nat) (g g' : G), flattenLoop store true fuel g = .ok g' →
+      g'.nodes.seq.filter (· ≥ nestedBase) = [] := by
+  intro fuel
+  induction fuel with
+  | zero => intro g g' h; rw [flattenLoop] at h; cases h
+  | succ n ih =>
+    intro g g' h
+    rw [flattenLoop] at h
+    by_cases hemp : (g.nodes.seq.filter (· ≥ nestedBase)).isEmpty = true
+    · simp only [hemp, if_true] at h
+      cases h
+      simpa using hemp
+    · simp only [hemp, Bool.false_eq_true, if_false, bind, Except.bind] at h
+      cases hf : (g.nodes.seq.filter (· ≥ nestedBase)).foldlM (graftNested store) g with
+      | error e => rw [hf] at h; cases h
+      | ok g1 =>
+        rw [hf] at h
+        simp only [if_true] at h
+        exact ih g1 g' h
+
 /-- one round of the model's `flatten` is such a sequence of grafts -/
 theorem flatten_round_eq (store : Nat → Option G) (g : G) (fuel : Nat) (subs : List G)
     (hne : (g.nodes.seq.filter (· ≥ nestedBase)) ≠ [])
